@@ -5,8 +5,11 @@ import QV.C12.Spec
 /-! Driver side of the C12 correspondence check.
 
 input   `(c12 e (amb (c re im) …) std)`     e: expression; amb: numbers alive outside e; std: the table `stdEnvs`
-output  `(out e' (vals xRE xIM xRE' xIM' …))`  e' = `e.into_simplified()`; per assignment the value of e and of e'
-                                              as computed by the real `Expression::evaluate`
+output  `(out e' (vals xRE xIM xRE' xIM' …) [alt])`  e' = `e.into_simplified()`; per assignment the value of e and of
+                                              e' as computed by the real `Expression::evaluate`
+        `alt = (alt same u1 u2 mself mout mrev)`  the other entry points (see harness/src/bin/c12.rs): the in-place
+                                              `simplify()`, `Gate::to_unitary` of `PHASE(e)`, `PHASE(e')`, and
+                                              `CalibrationIdentifier::matches` for (e,e), (e,e'), (e',e)
 
 `agree`  : the model's simplified tree equals e' (structure exactly; numeric leaves bit for bit or within 1e-12),
            and the shared evaluator (`QV.eval` over `CFloat`) reproduces the implementation's 16 values.
@@ -151,13 +154,14 @@ def closeSpec (a b : CFloat) (scale : Float) : Bool :=
     d ≤ 1e-9 * m + 1e-12 * (if scale < 1.0 then 1.0 else scale)
 
 inductive Verdict where
-  | pass | passCut | passCutBranch | skipNonFinite | skipNear | skipMissing | fail
+  | pass | passCut | passCutBranch | skipNonFinite | skipNear | skipOverflow | skipMissing | fail
   deriving DecidableEq
 
 /-- The value clause at one assignment.  `vo`, `vs`: the implementation's values of e and e'.
 * e not finite at this assignment: nothing is claimed;
 * some base within rounding distance of the cut (not exactly on it), or `0^w` with `Re w` within rounding distance
   of 0: nothing is claimed (counted);
+* an intermediate value beyond 1e150 in either evaluation: nothing is claimed (overflow; counted);
 * no base on the cut: the implementation's two values must be close;
 * a base exactly on the cut: some reading of e must be close to some reading of e' (counted; also counted:
   whether the implementation's raw values then differ, i.e. a conjugate-branch result). -/
@@ -169,6 +173,9 @@ def valueVerdict (ε : Env) (e out : Expr CFloat) (vo vs : Option CFloat) : Verd
     let anyClose := os.any fun o => ss.any fun s => closeSpec o s scale || (!fin o && !fin s)
     if !fin vo then .skipNonFinite
     else if io.cutNear || is.cutNear then .skipNear
+    -- intermediates beyond 1e150: a re-associated product can overflow where the original does not
+    -- (`-MAX * (-MAX * 0)` is 0, `(-MAX * -MAX) * 0` is NaN); the exact-field theorem knows no overflow
+    else if scale > 1e150 then .skipOverflow
     else if io.cutExact || is.cutExact then
       if closeSpec vo vs scale then .passCut else if anyClose then .passCutBranch else .fail
     else if closeSpec vo vs scale then .pass else .fail
@@ -262,9 +269,65 @@ def cmpVal (m : Except EvalError CFloat) (i : Option CFloat) : Nat :=
   | .error _, none => 2
   | _, _ => 0
 
+
+/-! ### the other entry points -/
+
+/-- the numbers an (owned) expression keeps alive as interned nodes: all of them unless it is itself a number -/
+def liveNumbers : Expr CFloat → List CFloat
+  | .number _ => []
+  | e => numbers e
+
+def isNumber : Expr CFloat → Bool
+  | .number _ => true
+  | _ => false
+
+def isVar : Expr CFloat → Bool
+  | .var _ => true
+  | _ => false
+
+/-- `CalibrationIdentifier::matches` on one parameter (calibration.rs:173-186): both parameters are simplified, the
+calibration's first (its result is alive while the gate's is simplified); a calibration variable matches anything,
+otherwise `Expression`'s `==`.  `alive`: the numbers alive besides the two parameters themselves. -/
+def matchesModel (alive : List CFloat) (a b : Expr CFloat) : Bool :=
+  let r1 := simplifyTop (alive ++ liveNumbers b) a
+  let r2 := simplifyTop (alive ++ liveNumbers a ++ liveNumbers r1) b
+  isVar r1 || beqE r1 r2
+
+inductive UOut where
+  | ok : CFloat → UOut
+  | err : UOut
+
+def decodeU : Sexp → Option UOut
+  | .list [.atom "ok", r, i] => match decodeF64 r, decodeF64 i with
+    | some r, some i => some (.ok (r, i))
+    | _, _ => none
+  | .list [.atom "err"] => some .err
+  | _ => none
+
+def decodeBool : Sexp → Option Bool
+  | .atom "true" => some true
+  | .atom "false" => some false
+  | _ => none
+
+structure Alt where
+  same : Bool
+  u1 : UOut
+  u2 : UOut
+  mself : Bool
+  mout : Bool
+  mrev : Bool
+
+def decodeAlt : Sexp → Option Alt
+  | .list [.atom "alt", s, u1, u2, m1, m2, m3] =>
+    match decodeBool s, decodeU u1, decodeU u2, decodeBool m1, decodeBool m2, decodeBool m3 with
+    | some s, some u1, some u2, some m1, some m2, some m3 => some ⟨s, u1, u2, m1, m2, m3⟩
+    | _, _, _, _, _, _ => none
+  | _ => none
+
 def verdictTag : Verdict → String
   | .pass => "v-pass" | .passCut => "v-pass-on-cut" | .passCutBranch => "v-pass-on-cut-conjugate-branch"
-  | .skipNonFinite => "v-orig-nonfinite" | .skipNear => "v-skip-near-cut" | .skipMissing => "v-missing"
+  | .skipNonFinite => "v-orig-nonfinite" | .skipNear => "v-skip-near-cut" | .skipOverflow => "v-skip-overflow"
+  | .skipMissing => "v-missing"
   | .fail => "v-FAIL"
 
 def handle (inp out : Sexp) : CaseResult :=
@@ -273,9 +336,13 @@ def handle (inp out : Sexp) : CaseResult :=
     match decodeExpr eS, decodeAll decodeC ambS with
     | some e, some amb =>
       match out with
-      | .list [.atom "out", oS, .list (.atom "vals" :: valsS)] =>
-        match decodeExpr oS, decodeVals valsS with
-        | some o, some vals =>
+      | .list (.atom "out" :: oS :: .list (.atom "vals" :: valsS) :: rest) =>
+        let altO : Option (Option Alt) := match rest with
+          | [] => some none
+          | [a] => (decodeAlt a).map some
+          | _ => none
+        match decodeExpr oS, decodeVals valsS, altO with
+        | some o, some vals, some alt =>
           let envs := stdEnvs
           let pairs := pairUp vals
           if pairs.length != envs.length then .bad s!"expected {envs.length} value pairs"
@@ -287,13 +354,35 @@ def handle (inp out : Sexp) : CaseResult :=
           let evs := (envs.zip pairs).map fun (ε, (vo, vs)) =>
             min (cmpVal (eval ε.rho ε.mu (negToSub e)) vo) (cmpVal (eval ε.rho ε.mu (negToSub o)) vs)
           let evalAgree := evs.all (· > 0)
-          let agree := c > 0 && evalAgree
+          -- the other entry points: model predictions (agreement) and sibling consistency (specification)
+          let alive := amb ++ liveNumbers o
+          let (altAgree, altSpec, altTags) : Bool × Bool × List String := match alt with
+            | none => (true, true, [])
+            | some a =>
+              let p1 := matchesModel (amb ++ liveNumbers o) e e
+              let p2 := matchesModel amb e o
+              let p3 := matchesModel amb o e
+              let mAgree := p1 == a.mself && p2 == a.mout && p3 == a.mrev
+              -- `Gate::to_unitary` has a matrix iff the simplified parameter is a number; then it is the matrix of
+              -- that number (`PHASE(e')` with `e'` a number needs no simplification)
+              let uSpec := match a.u1, a.u2 with
+                | .ok x, .ok y => isNumber o && (CFloat.close 1e-9 x y || (!fin x && !fin y))
+                | .err, _ => !isNumber o
+                | .ok _, .err => false
+              (mAgree, a.same && uSpec,
+                ["alt", if a.mself then "m-self-match" else "m-self-NOMATCH",
+                 if a.mout then "m-out-match" else "m-out-nomatch",
+                 match a.u1 with | .ok _ => "u-matrix" | .err => "u-nonconstant"] ++
+                (if a.same then [] else ["inplace-DIFFERS"]) ++ (if uSpec then [] else ["unitary-FAIL"]) ++
+                (if mAgree then [] else ["matches-DIFFERS"]))
+          let _ := alive
+          let agree := c > 0 && evalAgree && altAgree
           -- the specification on the implementation's output
           let verdicts := (envs.zip pairs).map fun (ε, (vo, vs)) => valueVerdict ε e o vo vs
           let valueOk := verdicts.all (· != .fail)
           let varsOk := o.vars.all (fun x => e.vars.contains x) && o.addrs.all (fun a => e.addrs.contains a)
           let piOk := !isPi o
-          let specOk := valueOk && structSpecB e o
+          let specOk := valueOk && structSpecB e o && altSpec
           -- known-finding classifiers (only when every failing clause is explained by one finding)
           -- counterfactuals: the same simplifier without the arm `0^e => 0` / with exact `is_zero`, `is_one`
           let passesWith (x : Expr CFloat) : Bool := (envs.zip pairs).all fun (ε, (vo, _)) =>
@@ -304,6 +393,7 @@ def handle (inp out : Sexp) : CaseResult :=
             passesWith (simplifyExactNoZP amb e)
           let kf : List String :=
             if specOk then []
+            else if !altSpec then []
             else if !varsOk then []
             else if !valueOk && !piOk then []
             else if !piOk then []
@@ -317,13 +407,13 @@ def handle (inp out : Sexp) : CaseResult :=
             [if c == 2 then "tree-bitexact" else if c == 1 then "tree-close" else "tree-DIFFERS",
              if evs.all (· == 2) then "eval-bitexact" else if evalAgree then "eval-close" else "eval-DIFFERS",
              if log.contains .limit0 then "limit-exhausted" else "limit-ok",
-             if piFree o then "out-pifree" else "out-has-pi"] ++ kf
+             if piFree o then "out-pifree" else "out-has-pi"] ++ altTags ++ kf
           { agree := agree, specOk := specOk,
             nontrivial := cmpTree e o != 2,
             tags := tags,
-            detail := s!"spec[value={valueOk} vars/addrs={varsOk} notpi={piOk}] verdicts={verdicts.map verdictTag} " ++
+            detail := s!"spec[value={valueOk} vars/addrs={varsOk} notpi={piOk} alt={altSpec}] altAgree={altAgree} verdicts={verdicts.map verdictTag} " ++
               s!"model={encodeExpr mTree} impl={oS} arms={log.map Arm.name} evalcmp={evs}" }
-        | _, _ => { agree := false, specOk := false, nontrivial := true, tags := ["impl-undecodable"], detail := s!"impl={out}" }
+        | _, _, _ => { agree := false, specOk := false, nontrivial := true, tags := ["impl-undecodable"], detail := s!"impl={out}" }
       | _ => { agree := false, specOk := false, nontrivial := true, tags := ["impl-crash-or-undecodable"],
                detail := s!"impl={out}" }
     | _, _ => .bad s!"undecodable input {inp}"
